@@ -63,7 +63,7 @@ CHECKS = {
  "C18": dict(cat="model_checking", tech="explicit Put/Get/Delete history enumeration against a JSON-document model, crash-point enumeration of every save (vos freeze before each mutating file-system operation), delay-bounded schedule enumeration of 3 concurrent callers, strace/SIGKILL conformance of the shim",
    text="All histories of <= 4 (5) operations over 4 address pairs x 13 pre-existing documents in lockstep with a hand-written model; every credential in a 6^4 product round-trips; the last operation of every history is interrupted before each mutating file-system operation and the file must be the old or the new complete document with mode 0600; 3 goroutines under every schedule within D<=2 (3) must leave the file equal to some permutation.",
    note="Unknown values are compared as JSON values (the encoder may re-escape bytes). Process-kill crash model."),
- "C17": dict(cat="model_checking", tech="explicit enumeration of server-answer sequences x body kinds x policies on the real auth+retry stack under a virtual clock (synctest bubble), with cancellation at every pause; exhaustive sweep of the backoff policy's parameter grid",
+ "C17": dict(cat="fault_enumeration", tech="explicit enumeration of server-answer sequences x body kinds x policies on the real auth+retry stack under a virtual clock (synctest bubble), with cancellation at every pause; exhaustive sweep of the backoff policy's parameter grid",
    text="Every sequence of registry answers of length <= MaxRetry+4 over a 10-13 letter alphabet is served to the real auth.Client -> retry.Transport stack for 7 body kinds, 3 sizes, partial body reads, MaxRetry 0..2 and two cache states; every attempt's body, attempt counts, every pause on the virtual clock and the outcome are checked against an independent oracle; each call is re-run once per pause with the context cancelled at half of it; the policy grid (attempt 0..70 x backoff x factor x jitter x bounds x Retry-After) is swept for bounds and panics.",
    note="math/rand/v2 in the retry package is replaced by a shim returning the low extreme; bounds are insensitive to it because of the clamp."),
 }
